@@ -97,6 +97,11 @@ def resume(seed, tier, family="resume"):
         g.add([Gen.open("S", clean=False), Gen.sub("S", ("a", 1)), Gen.open("P"), Gen.do("close", "S", )] +
               [Gen.pub("P", "a", 1, "P#%d" % (i + 1)) for i in range(n)] + [Gen.do("wait", "P", ms=40), Gen.open("S", clean=False)],
               window=10, queue=50, holdterm_ms=25, mode="step")
+    # a subscriber that was quiet for longer than the token timeout and then gets a burst longer than its window, acknowledging promptly:
+    # delivery keeps flowing (a token timeout is legitimate only after the window has been exhausted for that long)
+    for window in (1, 2):
+        g.add([Gen.open("S", clean=False), Gen.sub("S", ("a", 1)), Gen.open("P"), Gen.pub("P", "a", 1, "P#1"), Gen.do("wait", "P", ms=650)] +
+              [Gen.pub("P", "a", 1, "P#%d" % (i + 2)) for i in range(window + 3)] + [Gen.do("wait", "P", ms=30)], window=window, queue=50, token_ms=400)
     # long streams: 1..20 x window messages of mixed QoS, acknowledgement patterns immediate / batched / out of order / reconnect in between
     nstream = 24 if tier == "thorough" else 8
     for k in range(nstream):
